@@ -159,9 +159,19 @@ def pin_value(rng, cls, s, e):
     return "".join(rng.choice(c) for c in cls[s:e])
 
 
+JOURNAL: list = []  # (country, seed, use_registry, pins, outcome) of this process, replayed at its end
+
+
 def judge_draw(mon, S, table, cc, seedstr, use_registry, pins, allbank):
     kw = dict(pins)
     o = observe(S.IBAN.random, cc, random=Random(seedstr), use_registry=use_registry, **kw)
+    if len(JOURNAL) < 3000:
+        JOURNAL.append((cc, seedstr, use_registry, dict(pins), str(o.value) if o.ok else "EXC:" + o.exc_name))
+    if len(pins) > 1:
+        # the same pins written in the opposite keyword order
+        orv = observe(S.IBAN.random, cc, random=Random(seedstr), use_registry=use_registry, **dict(reversed(list(kw.items()))))
+        if orv.ok != o.ok or (o.ok and str(orv.value) != str(o.value)):
+            mon.viol("keyword_order_of_pins_changes_result", {"country": cc, "seed": seedstr, "use_registry": use_registry, "pins": pins}, o.brief(), orv.brief())
     mon.ev()
     w = {"country": cc, "seed": seedstr, "use_registry": use_registry, "pins": pins}
     mon.distinct((cc, seedstr, use_registry, tuple(sorted(pins.items()))))
@@ -253,7 +263,49 @@ def run_draw(shard, mon, S, table):
             pins = {c: pin_value(rng, cls, *pos[c]) for c in sub}
             for ur in (True, False):
                 judge_draw(mon, S, table, cc, f"p{env.seed()}/{cc}/{j}", ur, pins, allbank)
+            if j < 6:
+                # several seeds under the same pins (one of them may run out of attempts: that is that call's business)
+                for extra_seed in ("b", "c", "d"):
+                    judge_draw(mon, S, table, cc, f"p{env.seed()}/{cc}/{j}{extra_seed}", True, pins, allbank)
             mon.tally("pinned_draw_sets")
+        if cc in N.COMPUTING and "account_code" in pos and "bank_code" in pos:
+            # a pinned account under which some listed banks have no computable check digit (the draw then runs out
+            # of attempts - legitimately): found with the reference, then many seeds under that one pin
+            from vf.ref import lookup as LK  # noqa: PLC0415
+
+            codes = [k_ for c_, k_ in sorted(LK.by_key()) if c_ == cc][:600]
+            best, best_n = None, 0
+            for _ in range(24):
+                acc = pin_value(rng, cls, *pos["account_code"])
+                n_bad = 0
+                for code in codes:
+                    bb = list("0" * spec["bban_length"])
+                    bb[pos["bank_code"][0] : pos["bank_code"][0] + min(len(code), pos["bank_code"][1] - pos["bank_code"][0])] = list(code[: pos["bank_code"][1] - pos["bank_code"][0]])
+                    bb[pos["account_code"][0] : pos["account_code"][1]] = list(acc)
+                    try:
+                        if N.expected_digits(cc, "".join(bb))[0] == "none":
+                            n_bad += 1
+                    except Exception:  # noqa: BLE001
+                        break
+                if n_bad > best_n:
+                    best, best_n = acc, n_bad
+            if best is not None:
+                mon.tally("pins_under_which_some_banks_have_no_check_digit")
+                for k in range(40):
+                    judge_draw(mon, S, table, cc, f"ov{env.seed()}/{cc}/{k}", True, {"account_code": best}, allbank)
+        if "branch_code" in pos and "bank_code" in pos:
+            # a bank code of combined width next to a pinned branch code, both keyword orders: one outcome
+            comb = pin_value(rng, cls, *pos["bank_code"]) + pin_value(rng, cls, *pos["branch_code"])
+            br = pin_value(rng, cls, *pos["branch_code"])
+            for ur in (True, False):
+                oa = observe(S.IBAN.random, cc, random=Random(f"kw/{cc}"), use_registry=ur, bank_code=comb, branch_code=br)
+                ob = observe(S.IBAN.random, cc, random=Random(f"kw/{cc}"), use_registry=ur, branch_code=br, bank_code=comb)
+                mon.ev()
+                mon.tally("keyword_order_pairs")
+                if oa.ok != ob.ok or (oa.ok and str(oa.value) != str(ob.value)):
+                    mon.viol("keyword_order_of_pins_changes_result", {"country": cc, "use_registry": ur, "pins": {"bank_code": comb, "branch_code": br}}, oa.brief(), ob.brief())
+                elif oa.ok and oa.value.branch_code != br:
+                    mon.viol(f"pinned_component_changed:branch_code:{'registry' if ur else 'noregistry'}", {"country": cc, "pins": {"bank_code": comb, "branch_code": br}, "iban": str(oa.value)}, br, oa.value.branch_code)
         # totality only: odd pins
         for pins in ({"bank_code": ""}, {"account_code": "1"}, {"bank_code": "9" * 40}, {"branch_code": "ab"}):
             if all(c in pos for c in pins):
@@ -271,6 +323,14 @@ def run_draw(shard, mon, S, table):
             if s:
                 mon.tally("no_country_form")
     mon.sample({"country": cc, "seed": f"{env.seed()}/{cc}/0", "draw": str(observe(S.IBAN.random, cc, random=Random(f"{env.seed()}/{cc}/0")).value)})
+    # every draw of this process once more, last first: an equally seeded call gives what it gave before
+    for cc_, seed_, ur_, pins_, out_ in reversed(JOURNAL):
+        o = observe(S.IBAN.random, cc_, random=Random(seed_), use_registry=ur_, **pins_)
+        now = str(o.value) if o.ok else "EXC:" + o.exc_name
+        mon.ev()
+        mon.tally("draws_repeated_at_the_end_of_the_process")
+        if now != out_:
+            mon.viol("same_seed_different_result_later_in_process", {"country": cc_, "seed": seed_, "use_registry": ur_, "pins": pins_}, out_, now)
 
 
 def run_digest(shard, mon, S, table):
